@@ -42,6 +42,14 @@ pub enum SectionKind {
     Binary,
     SubmoduleShort,
     EmptyNew,
+    /// merge commit: `diff --cc path` with two-column hunks
+    CombinedModified,
+    /// merge commit: `diff --cc path`, binary
+    CombinedBinary,
+    /// binary file renamed and changed: two-name diff line, no ---/+++ lines
+    RenamedBinary,
+    /// `git diff --no-index A B` on binary files: two-name diff line followed only by index + Binary
+    TwoNameBinary,
 }
 
 pub const ALL_SECTION_KINDS: &[SectionKind] = &[
@@ -57,6 +65,10 @@ pub const ALL_SECTION_KINDS: &[SectionKind] = &[
     SectionKind::Binary,
     SectionKind::SubmoduleShort,
     SectionKind::EmptyNew,
+    SectionKind::CombinedModified,
+    SectionKind::CombinedBinary,
+    SectionKind::RenamedBinary,
+    SectionKind::TwoNameBinary,
 ];
 
 #[derive(Clone, Copy, Debug, PartialEq, Eq, Serialize, Deserialize)]
@@ -380,6 +392,43 @@ impl<'a> Gen<'a> {
             }
             Flavor::Git => {}
         }
+        match kind {
+            CombinedModified => {
+                meta(self, format!("diff --cc {}", a));
+                let h3 = self.hex(7);
+                meta(self, format!("index {},{}..{}", h1, h3, h2));
+                meta(self, format!("--- a/{}", a));
+                meta(self, format!("+++ b/{}", a));
+                let ec = self.rng.chance(1, 2);
+                self.hunks(p, section, 2, None, ec);
+                return;
+            }
+            CombinedBinary => {
+                meta(self, format!("diff --cc {}", a));
+                let h3 = self.hex(7);
+                meta(self, format!("index {},{}..{}", h1, h3, h2));
+                meta(self, "Binary files differ".into());
+                return;
+            }
+            TwoNameBinary => {
+                let b2 = self.fname(section + 1000);
+                meta(self, format!("diff --git a/{} b/{}", a, b2));
+                meta(self, format!("index {}..{} 100644", h1, h2));
+                meta(self, format!("Binary files a/{} and b/{} differ", a, b2));
+                return;
+            }
+            RenamedBinary => {
+                let b2 = self.fname(section + 1000);
+                meta(self, format!("diff --git a/{} b/{}", a, b2));
+                meta(self, "similarity index 91%".into());
+                meta(self, format!("rename from {}", a));
+                meta(self, format!("rename to {}", b2));
+                meta(self, format!("index {}..{} 100644", h1, h2));
+                meta(self, format!("Binary files a/{} and b/{} differ", a, b2));
+                return;
+            }
+            _ => {}
+        }
         meta(self, format!("diff --git a/{} b/{}", a, b));
         match kind {
             Modified | ModifiedEndsChanged => {
@@ -453,6 +502,7 @@ impl<'a> Gen<'a> {
                 meta(self, "new file mode 100644".into());
                 meta(self, "index 0000000..e69de29".into());
             }
+            CombinedModified | CombinedBinary | RenamedBinary | TwoNameBinary => {}
         }
     }
 
